@@ -383,8 +383,9 @@ theorem C11_rows_own_bindings (items : List T) (groups : Groups) (h : parseGroup
   exact ((parseGroups_rowsOwn h he).2.2 kr hkr).2.1
 
 /-- every dispatch key of every family of an accepted grouping has a dispatch key in the sense of C12 (`keyOf`):
-    its trait path has a last segment without parenthesized arguments, so `TraitBound::eq` can compare it (a key that
-    it cannot compare is never joined by a second member and, carrying no binding, is pruned) -/
+    its trait path has a last segment with no, angle-bracketed or parenthesized arguments (`cmpPath`, `C12_key_defined`),
+    so `TraitBound::eq` can compare it (a key that it cannot compare is never joined by a second member and, carrying no
+    binding, is pruned) -/
 theorem C11_keys_have_dispatch_key (items : List T) (groups : Groups) (h : parseGroups items = .ok groups) :
     ∀ e ∈ groups, ∀ kr ∈ e.2.1.bounds, (keyOf kr.1.2).isSome = true ∧ keyEq kr.1 kr.1 = true := by
   intro e he kr hkr
